@@ -53,6 +53,9 @@ inductive IntoKind where
 
 inductive FmtKind where
   | debug | debugAlt | display
+  | displayPad    -- `{:>30}`: `Display for Map/Set` writes directly, width and fill are ignored
+  | displayAlt    -- `{:#}`: … and so is the alternate flag
+  | debugPad      -- `{:30?}`: `debug_map`/`debug_set` pass the width on to the elements only
   deriving DecidableEq, Repr
 
 /-- terminal of an entry chain. -/
@@ -419,7 +422,8 @@ def fmtMap (R : Render K V) (kind : FmtKind) : SM K V Q String := do
   match kind with
   | .debug => pure (StdFmt.debugMap false (l.map fun p => (R.dbgK p.1, R.dbgV p.2)))
   | .debugAlt => pure (StdFmt.debugMap true (l.map fun p => (R.dbgK p.1, R.dbgV p.2)))
-  | .display => pure (displayMapCode R l)
+  | .display | .displayPad | .displayAlt => pure (displayMapCode R l)
+  | .debugPad => pure (StdFmt.debugMap false (l.map fun p => (R.dbgK p.1, R.dbgV p.2)))
 
 /-- read back the values behind the references `get_disjoint_mut` returned. -/
 def readSlots (r : Raw K V) : List (Option Nat) → SM K V Q (List (RV K V))
